@@ -5,8 +5,10 @@
    namespace operations are atomic and ordered. *)
 From GL Require Import Store.Crash Store.CrashProofs.
 
-(* For every history of writes (with or without sync), journal syncs, buffer rotations, flushes (table, edit,
-   manifest sync, journal removal — each a separate crash point), transaction commits and compaction edits,
+(* For every history of writes (with or without sync), failed journal writes, journal syncs, buffer rotations,
+   flushes (table, edit, manifest sync, journal removal — each a separate crash point), transaction commits,
+   compaction edits, AND crashes followed by recovery (PRestart leaves any admissible image and replays it into
+   memory; the flushes recovery then performs are ordinary steps, hence crash points again — nested crashes),
    and for every admissible crash image of the state reached: recovery contains every batch acknowledged as
    durable, only batches that were issued, each at most once and in issue order — so the recovered contents
    are those of a subset of the issued batches applied in their original order, every batch entirely present
@@ -28,6 +30,20 @@ Definition ex_ops : list pop :=
   [PWrite 2 true; PWrite 1 false; PRotate; PWrite 3 true; PFlushEdit; PManSync; PDropFrozen; PTxnCommit 0;
    PWrite 1 true; PCompactEdit].
 
+(* a crash in the middle of that history, recovery, more writes, and a second crash inside the second
+   recovery's flush: the batches acknowledged with sync before each crash are still there *)
+Definition ex_ops_nested : list pop :=
+  [PWrite 2 true; PWrite 1 false; PRotate; PWrite 3 true; PFlushEdit;
+   PRestart 0 0 0;                      (* crash: unsynced manifest tail and journal tails lost *)
+   PFlushEdit; PManSync; PDropFrozen; PRotate; PFlushEdit;   (* recovery flushes both journals ... *)
+   PRestart 0 0 0;                      (* ... and is itself interrupted *)
+   PRotate; PFlushEdit; PManSync; PDropFrozen; PWrite 1 true].
+Example C04_nonvacuous_nested :
+  let s := prun ex_ops_nested in
+  recover (mk_image s 0 0 0) = [{| b_seq := 1; b_n := 2 |}; {| b_seq := 4; b_n := 3 |}; {| b_seq := 8; b_n := 1 |}] /\
+  p_acked s = [{| b_seq := 1; b_n := 2 |}; {| b_seq := 4; b_n := 3 |}; {| b_seq := 8; b_n := 1 |}].
+Proof. split; vm_compute; reflexivity. Qed.
+
 (* the weakest image (nothing unsynced survives) still recovers the three synced batches *)
 Example C04_nonvacuous :
   let s := prun ex_ops in
@@ -39,7 +55,7 @@ Proof. split; vm_compute; reflexivity. Qed.
 (* obligation (Rm)/(Mf): if the frozen journal were removed before the edit that supersedes it is durable, a
    crash that loses the unsynced manifest tail loses an acknowledged batch *)
 Definition bad_drop (s : pstate) : pstate :=
-  {| p_live := p_live s; p_frozen := None; p_fedit := false; p_man := p_man s; p_msynced := p_msynced s;
+  {| p_live := p_live s; p_frozen := None; p_fedit := false; p_fseq := p_fseq s; p_man := p_man s; p_msynced := p_msynced s;
      p_seq := p_seq s; p_issued := p_issued s; p_acked := p_acked s |}.
 Example C04_obligation_remove_after_durable_needed :
   let s := bad_drop (prun [PWrite 2 true; PRotate; PFlushEdit]) in
